@@ -245,13 +245,29 @@ def check_compound_entries(ck, X, F, entries, syms, st):
         st['fractions_finer_than_6_decimals'] += sum(1 for f in e['massFractions'] if abs(f * 1e6 - round(f * 1e6)) > 1e-6)
         if not (e['density'] > 0 and math.isfinite(e['density'])):
             ck.violation('c15:nist:entry:density-not-positive', 'density of %r is %r' % (nm, e['density']), wit); good = False
+        # an entry that is a chemical compound carries the composition of its formula (the formula table is chemistry, refdata.NIST_FORMULAS;
+        # the parser that expands it is checked by C07): ties the NAME of the entry to the numbers stored under it
+        f_ = refdata.NIST_FORMULAS.get(nm)
+        if f_:
+            p_ = X.parse(f_.encode())
+            if not is_err(p_):
+                st['stoichiometry_checked'] = st.get('stoichiometry_checked', 0) + 1
+                if p_['Elements'] != e['Elements'] or max(abs(a - b) for a, b in zip(p_['massFractions'], e['massFractions'])) > 1e-3:
+                    ck.violation('c15:nist:entry:composition-is-not-that-of-the-named-compound', 'the catalogue entry %r holds Z=%r w=%r, the compound %s is Z=%r w=%r' % (
+                        nm, e['Elements'], e['massFractions'], f_, p_['Elements'], [round(x, 6) for x in p_['massFractions']]), dict(wit, formula=f_)); good = False
         if good:
             F.ok('nist:entry-invariants', 4)
     st['worst_sum_deviation'] = worst[0]
     st['worst_sum_entry'] = worst[1]
 
 
+RATIO_PAIRS = [('KA2', 'KA1'), ('KB3', 'KB1'), ('LB4', 'LB3'), ('LH', 'LB1'), ('LA2', 'LA1'), ('LL', 'LA1')]
+LINE_MACROS = {}
+
+
 def check_nuclide_entries(ck, X, F, entries, syms, st):
+    if not LINE_MACROS:
+        LINE_MACROS.update(refdata.Macros().by_suffix('_LINE') and {k + '_LINE': v for k, v in refdata.Macros().by_suffix('_LINE').items()})
     for i, e in sorted(entries.items()):
         nm = e['name']
         wit = dict(index=i, name=nm, Z=e['Z'], A=e['A'], N=e['N'], Z_xray=e['Z_xray'])
@@ -271,8 +287,20 @@ def check_nuclide_entries(ck, X, F, entries, syms, st):
                              dict(wit, line=ln, position=k, call='LineEnergy(%d,%d)' % (e['Z_xray'], ln))); good = False
             if not (inten >= 0 and math.isfinite(inten)):
                 ck.violation('c15:nuclide:entry:negative-intensity', 'nuclide %r X-ray intensity %r' % (nm, inten), dict(wit, line=ln, intensity=inten)); good = False
-        if len(set(e['XrayLines'])) != len(e['XrayLines']):
-            pass    # repeated lines are not excluded by the statement
+        # lines that start from the same sub-shell of the daughter are emitted in the ratio of their radiative rates: the intensities must
+        # belong to the lines they are listed with (factor 1.5; the shipped entries agree within 1.3).  Line macros by name from the header.
+        inten_of = dict(zip(e['XrayLines'], e['XrayIntensities']))
+        for l1, l2 in RATIO_PAIRS:
+            m1, m2 = LINE_MACROS.get(l1 + '_LINE'), LINE_MACROS.get(l2 + '_LINE')
+            if m1 in inten_of and m2 in inten_of and inten_of[m1] > 0 and inten_of[m2] > 0:
+                r1, r2 = X.num('RadRate', e['Z_xray'], m1), X.num('RadRate', e['Z_xray'], m2)
+                if is_err(r1) or is_err(r2) or not (r1 > 0 and r2 > 0):
+                    continue
+                q = (inten_of[m1] / inten_of[m2]) / (r1 / r2)
+                st['nuclide_ratio_pairs'] = st.get('nuclide_ratio_pairs', 0) + 1
+                if not (1 / 1.5 <= q <= 1.5):
+                    ck.violation('c15:nuclide:entry:intensities-do-not-belong-to-their-lines', 'nuclide %r: I(%s)/I(%s) = %.4g but RadRate ratio for Z=%d is %.4g (quotient %.3g)' % (
+                        nm, l1, l2, inten_of[m1] / inten_of[m2], e['Z_xray'], r1 / r2, q), dict(wit, lines=[l1, l2])); good = False
         for k, (ge, gi) in enumerate(zip(e['GammaEnergies'], e['GammaIntensities'])):
             if not (gi >= 0 and math.isfinite(gi) and math.isfinite(ge)):
                 ck.violation('c15:nuclide:entry:negative-intensity', 'nuclide %r gamma %r keV intensity %r' % (nm, ge, gi), dict(wit, gamma=ge, intensity=gi)); good = False
@@ -341,6 +369,15 @@ def check_crystals(ck, X, F, tier, st):
             if not (0 < occ <= 1):
                 ck.violation('c15:crystal:entry:occupancy-outside-(0,1]', 'crystal %r atom %d (Z=%d) has occupancy %r' % (nm, k, Z, occ),
                              dict(name=nm, atom=k, Z=Z, occupancy=occ)); good = False
+        sites = {}
+        for (Z, occ, x, y, z) in d['atoms']:
+            key = (Z, round(x % 1.0, 5) % 1.0, round(y % 1.0, 5) % 1.0, round(z % 1.0, 5) % 1.0)       # one element on one position (OH groups legitimately share a position)
+            sites[key] = sites.get(key, 0.0) + occ
+        over = {k_: v_ for k_, v_ in sites.items() if v_ > 1.0 + 1e-6}
+        if over:
+            k_, v_ = sorted(over.items())[0]
+            ck.violation('c15:crystal:entry:site-occupied-more-than-once', 'crystal %r: the Z=%d atoms at (%g, %g, %g) have a total occupancy of %g' % (nm, k_[0], k_[1], k_[2], k_[3], v_),
+                         dict(name=nm, site=list(k_), occupancy=v_)); good = False
         if good:
             F.ok('crystal:entry-invariants', 2 * len(d['atoms']))
     near = [v for nm in names for v in (nm + 'x', nm + ' ', ' ' + nm, nm[:-1], nm + nm[-1:], nm + '\x01' + 'y' * 30)]
